@@ -521,9 +521,22 @@ def run_program(prog):
         if k == 'regbases':
             r = op[1] % len(W.regs)
             nb = []
+
+            def reaches(a, target, seen=None):
+                # over the CURRENT __bases__ (a verifying registry's ``ro``
+                # is refreshed lazily and must not be used to exclude
+                # cycles)
+                seen = seen if seen is not None else set()
+                if a is target:
+                    return True
+                if id(a) in seen:
+                    return False
+                seen.add(id(a))
+                return any(reaches(x, target, seen) for x in a.__bases__)
             for x in op[2]:
                 b = x % len(W.regs)
-                if b != r and b not in nb and W.regs[r] not in W.regs[b].ro:
+                if b != r and b not in nb and \
+                        not reaches(W.regs[b], W.regs[r]):
                     nb.append(b)
             W.regs[r].__bases__ = tuple(W.regs[b] for b in nb)
             return [W.canon(x) for x in W.regs[r].ro]
